@@ -227,8 +227,8 @@ PROPS = {
     },
     "C04": {
         "controls": ["BIT"],
-        "rules": [("TAB-1", tab.tab1), ("TAB-2", tab.tab2), ("TAB-3", tab.tab3), ("BIT-3", bit.bit3), ("FLW-8", flw2.flw8), ("FLW-8c", r5.flw8c), ("FLW-8s", r5.flw8s), ("ENV-4", env4mod.env4), ("POL-1", pol.pol1), ("SHR-5", r5.shr5), ("TAB-9", r5.tab9), ("SUP-8", r5.sup8), ("TAB-11", r5.tab11), ("POL-2", r5.pol2), ("TAB-14", r5.tab14)],
-        "explanation": "ENV-4: in match_contexts_and_exceptions the contexts are matched before the exceptions, so an alpha first bound in the context carries into the exception. POL-1 decides the sign clauses ('named value', 'or its inverse with -α') as sibling agreement: in each of the 39 matches on BinMod / AlphaMod of the library, arms with the same skeleton differ in polarity (never the same code for both signs), and the sites whose meaning the accessors fix -- third argument of Segment::set_feat / feat_match, `Alpha::Feature(f != 0)` -- receive the positive polarity in the Positive / Alpha arm and the negative one in the Negative / InvAlpha arm. FLW-8 decides the scoping clause of alpha binding ('in the same application'): on MIR, every call of input_match_at in SubRule::apply is dominated inside the scan loop by HashMap::clear of both `alphas` and `variables` (directly or through a SubRule method that clears on every path), and every restart of a partial input match in input_match_at (`state_index = 0` inside the loop) is paired in the same iteration with clears of both tables. BIT-3 decides the single-feature equations of C04 for all segments at once by bit-level abstract interpretation of Segment::{get_node,set_node,set_feat,feat_match}: on a symbolic segment (3 symbolic bytes, place = one of 17 presence shapes with symbolic payloads), for every node, single-bit mask and polarity: feat_match is the named bit (its negation for -) and false on an absent sub-node; set_feat(+) yields old|bit (creating an absent sub-node with its other bits 0), set_feat(-) yields old&!bit and is the identity on an absent sub-node; every other node reads exactly as before; the feature then matches with the polarity set. Tables: the hand-maintained index tables (FType/NodeType/NodeKind "
+        "rules": [("TAB-1", tab.tab1), ("TAB-2", tab.tab2), ("TAB-3", tab.tab3), ("BIT-3", bit.bit3), ("FLW-8", flw2.flw8), ("FLW-8c", r5.flw8c), ("FLW-8s", r5.flw8s), ("ENV-4", env4mod.env4), ("POL-1", pol.pol1), ("SHR-5", r5.shr5), ("TAB-9", r5.tab9), ("SUP-8", r5.sup8), ("TAB-11", r5.tab11), ("POL-2", r5.pol2), ("TAB-14", r5.tab14), ("SUP-12", r5.sup12)],
+        "explanation": "SUP-12: SubRule::match_modifiers / match_supr_mod_seg answer a constant `Ok(false)` only on paths dominated by a call to a component matcher (match_feat_mod, match_node_mod, match_stress, match_seg_length): a matrix is refused only because a named feature, node or suprasegmental was tested and differed, never by a shortcut on the shape of the segment. ENV-4: in match_contexts_and_exceptions the contexts are matched before the exceptions, so an alpha first bound in the context carries into the exception. POL-1 decides the sign clauses ('named value', 'or its inverse with -α') as sibling agreement: in each of the 39 matches on BinMod / AlphaMod of the library, arms with the same skeleton differ in polarity (never the same code for both signs), and the sites whose meaning the accessors fix -- third argument of Segment::set_feat / feat_match, `Alpha::Feature(f != 0)` -- receive the positive polarity in the Positive / Alpha arm and the negative one in the Negative / InvAlpha arm. FLW-8 decides the scoping clause of alpha binding ('in the same application'): on MIR, every call of input_match_at in SubRule::apply is dominated inside the scan loop by HashMap::clear of both `alphas` and `variables` (directly or through a SubRule method that clears on every path), and every restart of a partial input match in input_match_at (`state_index = 0` inside the loop) is paired in the same iteration with clears of both tables. BIT-3 decides the single-feature equations of C04 for all segments at once by bit-level abstract interpretation of Segment::{get_node,set_node,set_feat,feat_match}: on a symbolic segment (3 symbolic bytes, place = one of 17 presence shapes with symbolic payloads), for every node, single-bit mask and polarity: feat_match is the named bit (its negation for -) and false on an absent sub-node; set_feat(+) yields old|bit (creating an absent sub-node with its other bits 0), set_feat(-) yields old&!bit and is the identity on an absent sub-node; every other node reads exactly as before; the feature then matches with the polarity set. Tables: the hand-maintained index tables (FType/NodeType/NodeKind "
                        "from_usize & count, DiaFeatType = NodeType++FType, hm_to_mod split constant, modifier array lengths, "
                        "diacritics.json keys) agree, the 16-bit place packing is laid out consistently and used consistently by its accessors (TAB-3, see C18), and FType::to_node_mask maps every feature to exactly one bit, bits of a node "
                        "disjoint and contiguous and equal to the Place masks, enum order node-contiguous. A necessary condition: a "
